@@ -285,6 +285,12 @@ def _signatures(ctx):
             want = True
         elif fmt == 'vmdk' and not data[:4] == b'KDMV':
             want = None     # text descriptors: classified by content
+            if 'text descriptor of ' in key:
+                n_ = int(key.split('text descriptor of ')[1].split()[0])
+                if n_ < 64:
+                    want = False    # fewer bytes than the header minimum
+                elif sched == 'giant':
+                    want = True     # all text, createType present
         else:
             want = formats.SPECS[fmt](data).match
         got = res['final']['format_match']
